@@ -14,7 +14,7 @@ RULE = (
     "cases: (1) calc_crc24q(b) vs two references for byte strings of EVERY length 0..1029 (random, all-00, all-FF, "
     "leading zeros, every byte value at first/middle/last position) and calc(b||crc2bytes(b)) == 0; (2) "
     "RTCMReader.parse(damaged frame, validate=1) must raise RTCMParseError for frames of lengths "
-    "{6,8,9,12,25,134,261,262,517,1029}: ALL single-bit errors (enumeration), all 2-bit errors for frames <= 12 bytes "
+    "{6,7,8,9,10,11,12,25,134,261,262,517,1029}: ALL single-bit errors (enumeration), all 2-bit errors for frames <= 12 bytes "
     "and sampled pairs otherwise, odd weights 3..15, bursts of every length 2..24 (every offset in thorough, sampled "
     "in quick), header bytes included; (3) with validate=0 the three CRC bytes do not influence the result. "
     "distinct = blake2b(input, relation); non-trivial = input length >= 4 bytes"
@@ -25,9 +25,9 @@ ASSUMPTIONS = [
 ]
 GATES = ["crc_compared", "append_zero_checked", "single_bit_checked", "double_bit_checked", "odd_checked",
          "burst_checked", "validate0_checked", "lengths_enumerated",
-         "syndrome_targeted_bursts", "nested_frames", "intact_parsed_first", "flag_values_checked", "validate0_then_1_checked"]
+         "syndrome_targeted_bursts", "nested_frames", "intact_parsed_first", "flag_values_checked", "validate0_then_1_checked", "inplace_sequences"]
 
-FRAME_LENGTHS = (6, 8, 9, 12, 25, 134, 261, 262, 517, 1029)
+FRAME_LENGTHS = (6, 7, 8, 9, 10, 11, 12, 25, 134, 261, 262, 517, 1029)
 
 
 def crc_case(ctx, data, label):
@@ -296,6 +296,38 @@ def run(ctx):
         others = [x for x in range(10) if x != b]
         if not damaged_case(ctx, fr, tuple(sorted((23 - b, 23 - rng.choice(others)))), "double_bit"):
             return
+    # the same MUTABLE buffer checked, modified in place, and checked again (a result remembered for an
+    # object must not outlive a change of its content)
+    import pyrtcm.rtcmhelpers as H
+    from pyrtcm import RTCMReader
+    from pyrtcm.exceptions import RTCMParseError
+
+    for it in range(ctx.n(200, 6000)):
+        fr = bytearray(make_frame(rng, rng.choice((8, 12, 25, 60, 134))))
+        view = memoryview(fr) if it % 3 == 0 else fr
+        ok = True
+        for step in range(4):
+            want = refcrc.crc_ref2(bytes(fr))
+            got = H.calc_crc24q(view)
+            if got != want:
+                ctx.violation("crc-value", f"calc_crc24q on a bytearray modified in place (step {step}) = {got:#x}, "
+                              f"CRC-24Q of its current content is {want:#x}", {"kind": "inplace", "frame": bytes(fr).hex()})
+                return
+            if want != 0:
+                try:
+                    RTCMReader.parse(fr, validate=1)
+                    ctx.violation("damage-accepted", f"a frame damaged IN PLACE (same buffer object, step {step}) is "
+                                  f"accepted with validation on", {"kind": "inplace", "frame": bytes(fr).hex()})
+                    return
+                except RTCMParseError:
+                    pass
+                except Exception as e:
+                    ctx.violation("damage-wrong-error", f"in-place damaged buffer: {type(e).__name__}: {e}",
+                                  {"kind": "inplace", "frame": bytes(fr).hex()})
+                    return
+            b = rng.randrange(len(fr) * 8)
+            fr[b >> 3] ^= 0x80 >> (b & 7)
+        ctx.hit("inplace_sequences")
     ctx.sample({"frame_lengths": list(FRAME_LENGTHS), "classes": ["single_bit(all)", "double_bit", "odd", "burst<=24"],
                 "example_frame_hex": make_frame(rng, 25).hex()})
     for k, v in monitors.EVAL.items():
